@@ -254,7 +254,7 @@ Proof.
   set (p' := match np with Some x => x | None => p end) in *.
   set (n' := match nn with Some x => x | None => n end) in *.
   destruct (Nat.ltb_spec p' (nobj s)) as [Hp'|Hp']; cbn [negb] in H; [|inversion H; subst; auto].
-  destruct (tmem (owires s p') n') eqn:Hpre; [inversion H; subst; auto|].
+  destruct (holds_other (owires s p') n' w) eqn:Hpre; [inversion H; subst; auto|].
   destruct (tmem (owires s p) n) eqn:Hm; cbn [negb] in H; [|inversion H; subst; auto].
   destruct Hinv as [HC [W1 W2] WP HP SD].
   assert (Hp : p < nobj s) by (apply WP; auto).
